@@ -37,6 +37,19 @@ type Runner struct {
 	Do func(rq *s3x.Req) *s3x.Resp
 	// NoTick keeps the fixed clock still (twin-stack comparisons tick themselves).
 	NoTick bool
+	// taint: keys that may legitimately carry the sentinel header a copy request sent
+	// (destinations of such copies, and copies of those); anywhere else it is foreign metadata.
+	taint map[string]bool
+}
+
+// SentinelHeader is only ever sent with copy requests.
+const SentinelHeader = "X-Amz-Meta-Only-On-Copy"
+
+func (r *Runner) foreignMeta(resp *s3x.Resp, b, k, what string) []Disc {
+	if resp.Header.Get(SentinelHeader) != "" && !r.taint[b+"\x00"+k] {
+		return fail("foreign-metadata", "%s carries %s, which was only ever sent with copy requests addressed to other keys", what, SentinelHeader)
+	}
+	return nil
 }
 
 func NewRunner(st *backends.Stack) *Runner {
@@ -287,6 +300,7 @@ func (r *Runner) step(op Op) []Disc {
 			return d
 		}
 		ds := checkObject(resp, method, v, op.K+" "+op.B+"/"+op.Key)
+		ds = append(ds, r.foreignMeta(resp, op.B, op.Key, op.K+" "+op.B+"/"+op.Key)...)
 		if id := resp.Header.Get("x-amz-version-id"); id != "" && v.ID != "" && id != v.ID {
 			ds = append(ds, fail("wrong-version-served", "unqualified %s reports version %s, newest remaining is %s", op.K, id, v.ID)...)
 		}
@@ -492,6 +506,12 @@ func (r *Runner) stepCopy(op Op) []Disc {
 	}
 	meta = mergeMeta(meta, metaMap(op.Meta))
 	body := append([]byte(nil), sv.Body...)
+	if r.taint == nil {
+		r.taint = map[string]bool{}
+	}
+	if _, sent := metaMap(op.Meta)[SentinelHeader]; sent || r.taint[op.SB+"\x00"+op.SKey] {
+		r.taint[op.B+"\x00"+op.Key] = true
+	}
 	db.applyPut(m, op.Key, body, meta, "")
 	return ds
 }
@@ -728,6 +748,7 @@ func (r *Runner) Invariant(universeKeys []string) []Disc {
 				continue
 			}
 			ds = append(ds, checkObject(resp, "GET", v, what)...)
+			ds = append(ds, r.foreignMeta(resp, b, k, what)...)
 		}
 	}
 	if r.Classify != nil {
